@@ -21,15 +21,16 @@ V22_ONLY = {"demand_model", "minimum_pressure", "required_pressure", "pressure_e
 
 def cases(tier):
     out = []
-    for s in modelspace.enumerate_specs(1):
+    inp_ok = lambda n: n not in modelspace.NOT_IN_INP
+    for s in modelspace.enumerate_specs(1, keep=inp_ok):
         for u in UNITS:
             for v in (2.2, 2.0):
                 if tier == "quick" and v == 2.0 and u not in ("GPM", "LPS"):
                     continue
                 out.append({"devs": s["devs"], "units": u, "version": v})
     if tier == "thorough":
-        seen = set(tuple(s["devs"]) for s in modelspace.enumerate_specs(1))
-        for s in modelspace.enumerate_specs(2):
+        seen = set(tuple(s["devs"]) for s in modelspace.enumerate_specs(1, keep=inp_ok))
+        for s in modelspace.enumerate_specs(2, keep=inp_ok):
             if tuple(s["devs"]) in seen:
                 continue
             for u in ("GPM", "LPS", "IMGD"):
